@@ -30,25 +30,62 @@ theorem flushBody_effect (F : LockFacts) (id : Nat) (s : State) :
     (execBody (flushBody F id) (s, Loc.init)).1 = tick s id := by
   cases hF : F.flushCurr <;>
   · simp only [flushBody, hF, optLock, optUnlock, execBody, List.cons_append, List.nil_append, List.append_nil,
-      List.foldl_cons, List.foldl_nil, execI, Loc.init, tick, flush, State.limitHours]
-    by_cases hc : s.limit / msPerHour = 0 ∨ s.curr.id = id
-    · rcases hc with hc | hc <;> simp [hc]
-    · have h1 : ¬ s.limit / msPerHour = 0 := fun h => hc (Or.inl h)
-      have h2 : ¬ s.curr.id = id := fun h => hc (Or.inr h)
-      simp [h1, h2]
+      List.foldl_cons, List.foldl_nil, execI, Loc.init, tick, flush]
+    by_cases hc : s.limitHours = 0 ∨ s.curr.id = id
+    · have hb : (s.limitHours == 0 || s.curr.id == id) = true := by
+        rcases hc with hc | hc <;> simp [hc]
+      have hc' : ({ s with clock := id } : State).limitHours = 0 ∨ s.curr.id = id := hc
+      simp only [hb, Bool.not_true, Bool.false_eq_true, if_false]
+      rw [if_pos hc']
+    · have hb : (s.limitHours == 0 || s.curr.id == id) = false := by
+        have h1 : ¬ s.limitHours = 0 := fun h => hc (Or.inl h)
+        have h2 : ¬ s.curr.id = id := fun h => hc (Or.inr h)
+        simp [h1, h2]
+      have hc' : ¬ (({ s with clock := id } : State).limitHours = 0 ∨ s.curr.id = id) := hc
+      simp only [hb, Bool.not_false, if_true]
+      rw [if_neg hc']
+      rfl
+
+theorem execBody_cons {L : Type} (i : Instr L) (b : List (Instr L)) (p : State × L) :
+    execBody (i :: b) p = execBody b (execI i p) := rfl
+
+theorem execBody_nil {L : Type} (p : State × L) : execBody ([] : List (Instr L)) p = p := rfl
 
 theorem readBody_effect (F : LockFacts) (s : State) :
     (execBody (readBody F) (s, Loc.init)).1 = s ∧
     (execBody (readBody F) (s, Loc.init)).2.result = some (getData s) := by
-  cases hF : F.loadCurr <;>
-  · simp only [readBody, hF, optLock, optUnlock, execBody, List.cons_append, List.nil_append, List.append_nil,
-      List.foldl_cons, List.foldl_nil, execI, Loc.init, getData, loadUnits]
-    by_cases h0 : s.limitHours = 0
-    · simp [h0, emptyResp]
-    · simp only [h0, decide_false, Bool.not_false, if_true, if_false]
-      constructor
-      · trivial
-      · split <;> simp_all
+  by_cases h0 : s.limitHours = 0
+  · have hb : (s.limitHours == 0) = true := by simp [h0]
+    have hg : getData s = .ok emptyResp := by simp only [getData, h0, if_true]; rfl
+    rw [hg]
+    cases hF : F.loadCurr <;>
+      simp [readBody, hF, optLock, optUnlock, execBody_cons, execBody_nil, execI, Loc.init, hb]
+  · have hb : (s.limitHours == 0) = false := by simp [h0]
+    have hg : getData s = match loadUnits s s.limitHours with
+        | .error e => .error e
+        | .ok (units, curID) => dataFromUnits units curID := by
+      simp only [getData, h0, if_false]
+    rw [hg]
+    cases hF : F.loadCurr <;>
+    · simp only [readBody, hF, optLock, optUnlock, List.cons_append, List.nil_append, List.append_nil,
+        execBody_cons, execBody_nil, execI, Loc.init, hb, Bool.not_false, if_true, Bool.false_eq_true, if_false,
+        loadUnits, true_and]
+      by_cases hl : ((List.range (sub32 s.curr.id (add32 (sub32 s.curr.id s.limitHours) 1))).map
+          (fun k => (s.db.get (add32 (add32 (sub32 s.curr.id s.limitHours) 1) k)).getD UnitDB.empty) ++
+          [s.curr.serialize]).length = s.limitHours
+      · have hb2 : (((List.range (sub32 s.curr.id (add32 (sub32 s.curr.id s.limitHours) 1))).map
+          (fun k => (s.db.get (add32 (add32 (sub32 s.curr.id s.limitHours) 1) k)).getD UnitDB.empty) ++
+          [s.curr.serialize]).length != s.limitHours) = false := by simp [hl]
+        have hn : ¬ ((List.range (sub32 s.curr.id (add32 (sub32 s.curr.id s.limitHours) 1))).map
+          (fun k => (s.db.get (add32 (add32 (sub32 s.curr.id s.limitHours) 1) k)).getD UnitDB.empty) ++
+          [s.curr.serialize]).length ≠ s.limitHours := by simp [hl]
+        simp only [hb2, Bool.false_eq_true, if_false]
+        rw [if_neg hn]
+      · have hb2 : (((List.range (sub32 s.curr.id (add32 (sub32 s.curr.id s.limitHours) 1))).map
+          (fun k => (s.db.get (add32 (add32 (sub32 s.curr.id s.limitHours) 1) k)).getD UnitDB.empty) ++
+          [s.curr.serialize]).length != s.limitHours) = true := by simp [hl]
+        simp only [hb2, if_true]
+        rw [if_pos hl]
 
 theorem setDaysBody_effect (F : LockFacts) (d : Nat) (s : State) (hd : checkInterval d = true) :
     (execBody (setDaysBody F d) (s, Loc.init)).1 = setLimitDays s d := by
